@@ -74,12 +74,28 @@ def model(repo, axis):
     # the domain covers the whole axis of the grid
     full = dom["step"] == 1 and dom["lo"].is_const() and dom["lo"].c == 0
     hi_t = repr(dom["hi"])
+    # a sequence built with one element per element of another (a comprehension without a filter, list()/tuple() of it, a
+    # local bound once to it) has that other sequence's length
+    src = dom.get("seq")
+    for _ in range(6):
+        if isinstance(src, ast.Name):
+            nxt = _unwrap_alias(f, src)
+            if nxt is src or U(nxt) == U(src):
+                break
+            src = nxt
+        elif isinstance(src, (ast.ListComp, ast.GeneratorExp)) and len(src.generators) == 1 and not src.generators[0].ifs:
+            src = src.generators[0].iter
+        elif isinstance(src, ast.Call) and call_name(src) in ("list", "tuple") and len(src.args) == 1 and not src.keywords:
+            src = src.args[0]
+        else:
+            break
+    src_t = U(src).replace(" ", "") if src is not None else ""
     if axis == "row":
-        full = full and (hi_t == f"+len({data}) >= 0")
+        full = full and (hi_t == f"+len({data}) >= 0" or src_t == data)
     else:
         seq = dom["seq"]
         seq_t = U(seq).replace(" ", "") if seq is not None else ""
-        full = full and (f"zip(*{data})" in seq_t or hi_t in (f"+len({data}[0]) >= 0",))
+        full = full and (f"zip(*{data})" in seq_t or hi_t in (f"+len({data}[0]) >= 0",) or src_t == f"zip(*{data})")
     out["full"] = full
     if not full:
         P(f"the header loop runs over `{hi_t}`" + (f" of `{U(dom['seq'])}`" if dom.get("seq") is not None else "") + f" instead of every {axis} of the grid")
@@ -104,7 +120,6 @@ def model(repo, axis):
     size = kw.get("size")
     if size is not None:
         e = bs.at(_stmt_of(h), size) if bs is not None else size
-        from .symexec import _unwrap_alias
         e2 = _unwrap_alias(f, e) if isinstance(e, ast.Name) else e
         plain = (isinstance(e2, ast.Subscript) and isinstance(e2.value, ast.Name) and U(e2.slice) == dom["var"]) or (
             isinstance(e2, ast.Call) and last_attr(e2.func) in ("row_height", "col_width")) or (isinstance(e2, ast.Name) and dom.get("elem") is not None)
